@@ -85,6 +85,13 @@ func checkC03(c *Ctx) *core.Result {
 		r.Fail("vacuity", "-", "required fingerprints", "-", fmt.Sprintf("only %d calibrated fingerprints", len(fps)))
 	}
 
+	// ---- R-tailc: fold re-appends the saved trailing comment whenever there is room
+	if foldFn := a.FnOpt("sql.fold"); foldFn != nil {
+		if mt, ok := p.ConstInt(a.Consts["sql.maxTokens"]); ok {
+			savedCommentRule(p, a, r, foldFn, mt)
+		}
+	}
+
 	// ---- R-ctx / R-gate: imported from C12 and C08
 	c12 := checkC12(&Ctx{P: p, Tier: c.Tier, VerifDir: c.VerifDir, Property: "C12"})
 	importRules(r, c12, "R-ctx/", map[string]bool{"K1": true, "K2": true, "K3": true, "K5": true, "K6": true, "anchor": true})
@@ -770,4 +777,104 @@ func rawInputLeaf(a *Anchors, v ssa.Value, seen map[ssa.Value]bool, depth int) b
 		}
 	}
 	return false
+}
+
+// savedCommentRule (R-tailc): in the folding function a whole token that was saved
+// in a local variable (the trailing comment set aside while folding) is written
+// back into the token vector at index `left`; every upper bound on that index that
+// guards the write must leave room for all positions of the fingerprint
+// (`left < maxTokens`).  A tighter guard drops the comment class from fingerprints
+// of exactly maxTokens−1 tokens (`1;Esc` → `1;Es`): the trailing-comment styles of
+// the statement are then no longer part of what is looked up.  Guards of an
+// unrecognised shape are noted, not reported.
+func savedCommentRule(p *core.Program, a *Anchors, r *core.Result, fold *ssa.Function, maxTokens int64) {
+	memo := map[ssa.Value]*linForm{}
+	n := 0
+	for _, b := range fold.Blocks {
+		for _, ins := range b.Instrs {
+			st, ok := ins.(*ssa.Store)
+			if !ok {
+				continue
+			}
+			ld, ok := st.Val.(*ssa.UnOp)
+			if !ok || ld.Op != token.MUL {
+				continue
+			}
+			al, ok := ld.X.(*ssa.Alloc)
+			if !ok || al.Heap {
+				continue
+			}
+			ia, ok := st.Addr.(*ssa.IndexAddr)
+			if !ok || !a.isField(ia.X, "sql.state.tokens") {
+				continue
+			}
+			if _, isStruct := ld.Type().Underlying().(*types.Struct); !isStruct {
+				continue
+			}
+			n++
+			expr := fmt.Sprintf("saved token %s written back at index %s", al.Comment, core.Short(ssax.Canon(ia.Index)))
+			best, found := int64(1)<<40, false
+			for _, f := range ssax.Facts(b) {
+				bo, ok := f.Cond.(*ssa.BinOp)
+				if !ok {
+					continue
+				}
+				op := bo.Op
+				switch op {
+				case token.LSS, token.LEQ, token.GTR, token.GEQ:
+				default:
+					continue
+				}
+				if !f.True {
+					op = map[token.Token]token.Token{token.LSS: token.GEQ, token.LEQ: token.GTR, token.GTR: token.LEQ, token.GEQ: token.LSS}[op]
+				}
+				fx, fy := linOf(bo.X, memo, 0), linOf(bo.Y, memo, 0)
+				coef := fx.coef[ia.Index] - fy.coef[ia.Index]
+				k := fx.k - fy.k
+				others := false
+				for s, c := range fx.coef {
+					if s != ia.Index && c-fy.coef[s] != 0 {
+						others = true
+					}
+				}
+				for s, c := range fy.coef {
+					if s != ia.Index && fx.coef[s]-c != 0 {
+						others = true
+					}
+				}
+				if others || (coef != 1 && coef != -1) {
+					continue
+				}
+				if coef == -1 {
+					k = -k
+					op = map[token.Token]token.Token{token.LSS: token.GTR, token.LEQ: token.GEQ, token.GTR: token.LSS, token.GEQ: token.LEQ}[op]
+				}
+				// idx + k op 0
+				var bound int64
+				switch op {
+				case token.LSS:
+					bound = -k // idx < -k
+				case token.LEQ:
+					bound = -k + 1
+				default:
+					continue // a lower bound
+				}
+				found = true
+				if bound < best {
+					best = bound
+				}
+			}
+			switch {
+			case !found:
+				r.Note("R-tailc: " + expr + " is not guarded by a recognised upper bound on the index (rule not evaluated)")
+			case best < maxTokens:
+				r.Fail("R-tailc", core.QualName(fold), expr, p.Pos(st.Pos()), fmt.Sprintf("the saved trailing comment is written back only while the index is < %d, but a fingerprint has %d positions: sequences of %d tokens lose their trailing comment class, so statements truncated by a comment get a different fingerprint", best, maxTokens, maxTokens-1))
+			default:
+				r.OK("R-tailc", core.QualName(fold), expr, p.Pos(st.Pos()), fmt.Sprintf("written back whenever index < %d", best))
+			}
+		}
+	}
+	if n == 0 {
+		r.Note("R-tailc: the folding function writes no locally saved token back into the token vector (rule not applicable on this tree)")
+	}
 }
